@@ -31,3 +31,10 @@ GROUPS += [
           functions=["ILLlib_getcols"], props=["C06", "C17"])
     for lf in (0, 1)
 ]
+
+GROUPS += [
+    Group("lib/getrows_lf%d" % lf, "lib_getrows.c", tus=LIB + ["lpdata_mpq.c", "eg_lpnum.c"], model=MODEL, defines=["LF=%d" % lf, "QSV_GMP_TOKENS"], dfcc=False, unwind=7, kind="bounded", timeout=900, flags=["--no-malloc-may-fail"], leak=True,
+          bound="one constructed sparsity pattern (2 rows, 2 structural columns with 3 coefficients, 2 logicals), logical columns %s, row list {1, 0}, with / without range array, symbolic values; loops completely unwound" % ("first (column map not the identity)" if lf else "last"),
+          functions=["ILLlib_getrows", "ILLlp_rows_init"], props=["C06", "C18", "C17"], assumed=["lib/getrows: GMP model variant TOKENS"])
+    for lf in (0, 1)
+]
